@@ -135,7 +135,9 @@ PHASES = {
     "template": [{"a": "EditPool", "what": "setTaints", "val": "t1,t9"}, {"a": "DriftAll"}, {"a": "HashRec"}, {"a": "DriftAll"},
                  {"a": "AgeVersion"}, {"a": "HashRec"}, {"a": "DriftAll"},
                  {"a": "EditPool", "what": "setTaints", "val": "t1,t2"}, {"a": "HashRec"}, {"a": "DriftAll"}],
-    "restart-tick": [{"a": "Tick", "d": 3700}, {"a": "DriftAll"}, {"a": "Restart"}, {"a": "DriftAll"}, {"a": "RemoveType", "t": "medium"},
+    "restart-tick": [{"a": "OfferingUnavailable", "t": "small", "zone": "zone-a", "ct": "spot"},
+                     {"a": "OfferingUnavailable", "t": "large", "zone": "zone-b", "ct": "on-demand"},
+                     {"a": "Tick", "d": 3700}, {"a": "DriftAll"}, {"a": "Restart"}, {"a": "DriftAll"}, {"a": "RemoveType", "t": "medium"},
                      {"a": "DriftAll"}, {"a": "Tick", "d": 1900}, {"a": "DriftAll"}],
     "stale-annotation": [{"a": "EditPool", "what": "setTaints", "val": "t1,t9"}, {"a": "Create", "c": "late"}, {"a": "Launch", "c": "late", "opt": "#0"},
                          {"a": "DriftRec", "c": "late"}, {"a": "HashRec"}, {"a": "DriftRec", "c": "late"}],
@@ -231,7 +233,11 @@ def systematic(tier, rng):
                  {"a": "Launch", "c": "c1", "opt": "#5"}, {"a": "DriftRec", "c": "c1"}, {"a": "Register", "c": "c1"}, {"a": "DriftRec", "c": "c1"},
                  {"a": "Create", "c": "c2"}, {"a": "Launch", "c": "c2", "opt": "#4"}, {"a": "DriftRec", "c": "c2"},
                  {"a": "ProvDrift", "c": "c2", "on": True}, {"a": "DriftRec", "c": "c2"}, {"a": "ProvDrift", "c": "c2", "on": False},
-                 {"a": "DriftRec", "c": "c2"}, {"a": "Tick", "d": 3700}, {"a": "RemoveOffering", "t": "medium", "zone": "zone-a", "ct": "spot"},
+                 {"a": "DriftRec", "c": "c2"}, {"a": "Tick", "d": 3700},
+                 # a temporarily unavailable offering is still a known offering: its NodeClaims do not drift
+                 {"a": "OfferingUnavailable", "t": "medium", "zone": "zone-a", "ct": "on-demand"}, {"a": "DriftAll"},
+                 {"a": "OfferingAvailable", "t": "medium", "zone": "zone-a", "ct": "on-demand"},
+                 {"a": "RemoveOffering", "t": "medium", "zone": "zone-a", "ct": "spot"},
                  {"a": "DriftAll"}, {"a": "RemoveType", "t": "medium"}, {"a": "DriftAll"}, {"a": "RestoreCatalog"}, {"a": "Tick", "d": 1900},
                  {"a": "DriftAll"}, {"a": "EditPool", "what": "dropAnn"}, {"a": "DriftAll"}, {"a": "HashRec"}, {"a": "DriftAll"},
                  {"a": "EditClaim", "c": "c2", "what": "dropAnn"}, {"a": "DriftAll"}]
